@@ -51,6 +51,20 @@ def masks(src, name):
         raise TieError(f"{name}: no pointer-tag tests found")
     return res
 
+def alloc_sites(src):
+    """every direct allocator call (`std::alloc::*`) and every ownership escape hatch (`mem::forget`,
+    `ManuallyDrop`, `Box::from_raw/into_raw/leak`), with the function it occurs in, in source order"""
+    res = []
+    fn = "?"
+    for line in src.splitlines():
+        code = line.split("//")[0]
+        m = re.match(r'\s*(?:pub )?(?:const )?(?:unsafe )?fn (\w+)', code)
+        if m:
+            fn = m.group(1)
+        for mm in re.finditer(r'\balloc::(alloc_zeroed|alloc|dealloc|realloc)\s*\(|\b(mem::forget|ManuallyDrop|Box::from_raw|Box::into_raw|Box::leak|Vec::from_raw_parts)\b', code):
+            res.append((fn, mm.group(1) or mm.group(2)))
+    return res
+
 def one(pattern, src, what, flags=0):
     m = re.search(pattern, src, flags)
     if not m:
@@ -92,6 +106,12 @@ def gen_consts():
         d["denseBig"] = int(one(r"if s\.cap(?: as u64)? > mx >> (\d+)", src, f"{name}: table->dense criterion").group(1))
         return d
     l64, l32 = lits(s64, "setu64.rs", 64), lits(s32, "setu32.rs", 32)
+    a64, a32 = alloc_sites(s64), alloc_sites(s32)
+    aother = []
+    for f in ("src/setu64/iter.rs", "src/setu32/iter.rs", "src/set64.rs", "src/setusize.rs", "src/copyset.rs", "src/sets.rs", "src/lib.rs"):
+        aother += [(f + ":" + fn, call) for fn, call in alloc_sites(read(f))]
+    def sitel(ms):
+        return "[" + ", ".join(f'("{f}", "{c}")' for f, c in ms) + "]"
     def tagl(ms):
         return "[" + ", ".join(f'("{f}", {m})' for f, m in ms) + "]"
     txt = f"""/-! GENERATED by /verif/tools/gen_consts.py from {REPO}/src — do not edit.
@@ -102,6 +122,11 @@ def bitsplits32 : List (List Nat) := {"[" + ", ".join(lean_list(r) for r in b32)
 /-- (function, mask) of every inline-vs-pointer test `self.0 as usize & mask` -/
 def tagMasks64 : List (String × Nat) := {tagl(m64)}
 def tagMasks32 : List (String × Nat) := {tagl(m32)}
+/-- (function, call) of every direct allocator call in the file, in source order -/
+def allocSites64 : List (String × String) := {sitel(a64)}
+def allocSites32 : List (String × String) := {sitel(a32)}
+/-- the same for the iterator, wrapper and operator files (expected: none) -/
+def allocSitesOther : List (String × String) := {sitel(aother)}
 def detMul1 : Nat := {p1}
 def detMul2 : Nat := {p2}
 def smInc : Nat := {inc}
